@@ -245,7 +245,19 @@ func (e ExitPanic) Error() string { return "verifrt: exit(" + strconv.Itoa(e.Cod
 // ExitAsPanic makes Exit panic with ExitPanic instead of leaving the process.
 var ExitAsPanic bool
 
+// ExitHook, when set, is called first; if it returns the usual path follows.
+// (It may end the calling goroutine with runtime.Goexit.)
+var ExitHook func(code int)
+
+// Goid is the runtime's number of the calling goroutine.
+//
+//go:norace
+func Goid() int64 { return goid() }
+
 func Exit(code int) {
+	if h := ExitHook; h != nil {
+		h(code)
+	}
 	if ExitAsPanic {
 		panic(ExitPanic{code})
 	}
